@@ -1,4 +1,4 @@
-"""C20 — bipartite vertex cover is valid and minimum, so operator bonds are minimal.
+r"""C20 — bipartite vertex cover is valid and minimum, so operator bonds are minimal.
 
 Three parts (DESIGN §4 C20):
 
@@ -18,6 +18,10 @@ Three parts (DESIGN §4 C20):
       harness-built, de-duplicated, zero-filtered table and never exceed min(#prefixes, #suffixes);
       a spy on symbolic_mpo.bipartite_vertex_cover applies the cover test to every graph the builder
       really submits (construction and adjacent-site swaps).
+(iv)  finite: three-site matrix-unit operators with 65 536 + k distinct partial terms on the large side of a cut (beyond the
+      16-bit index range of the library's tables), large side on the right or on the left, both algorithms (quick: one
+      case, thorough: four); oracle: bond_dims == minimum cover per cut (harness matching) and todense() == the operator
+      written down term by term (every term is one matrix element of the one-particle space).
 
 Known finding F-C20a (own signature ``table.<algo>.bond_inflated_by_symbol_spelling``): Op.split_elementary keeps
 the spelling r"b^\dagger + b" for a term consisting of that single symbol but re-spells it r"b^\dagger+b" in
@@ -217,6 +221,145 @@ def _enum_worker(spec):
 
     warnings.filterwarnings("ignore")
     return enum_chunk(spec)
+
+
+# ------------------------------------------------------------------------------------------------
+# (iv) tables beyond 65 536 distinct partial terms (index width of the library's uint16 tables / int32 graph arrays)
+# ------------------------------------------------------------------------------------------------
+
+BIG_N0, BIG_N1 = 8, 18
+
+
+def big_specs(tier):
+    if tier == "quick":
+        return [{"kind": "bigtable", "layout": "right", "algo": "Hopcroft-Karp", "extra": 3, "share": 3}]
+    return [{"kind": "bigtable", "layout": lay, "algo": algo, "extra": ex, "share": sh}
+            for lay, algo, ex, sh in (("right", "Hopcroft-Karp", 3, 3), ("left", "Hopcroft-Karp", 2, 4),
+                                      ("right", "Hungarian", 1, 8), ("left", "Hungarian", 4, 2))]
+
+
+def big_strings(spec):
+    """three sites of matrix units E_ij (BasisMultiElectron, one particle): strings (a, b, c) = E_a x E_b x E_c.
+    `extra` low pairs Y_k and `extra` high pairs X_k (lexicographically first / last (b, c)) are each shared by `share`
+    left operators; 40 further left operators carry 65536 - extra mutually distinct middle pairs, so the cut between the
+    small site and the pair has 65536 + extra distinct partial terms on its large side and minimum cover 40 + 2*extra."""
+    n0, n1 = BIG_N0, BIG_N1
+    ex, sh = spec["extra"], spec["share"]
+    left = [(i, j) for i in range(n0) for j in range(n0)]
+    site = [(i, j) for i in range(n1) for j in range(n1)]
+    pairs = [(b, c) for b in site for c in site]
+    assert 2 * ex * sh + 40 <= len(left)
+    ys, xs = pairs[:ex], pairs[-ex:]
+    mid = pairs[ex:-ex]
+    n_mid = 65536 - ex
+    out = []
+    k = 0
+    for y in ys:
+        for _ in range(sh):
+            out.append((left[k], y[0], y[1]))
+            k += 1
+    base = k
+    # spread the middle pairs (taken with a stride so that they cover the whole index range) over 40 left operators
+    stride = len(mid) / n_mid
+    for t in range(n_mid):
+        pr = mid[int(t * stride)]
+        out.append((left[base + t * 40 // n_mid], pr[0], pr[1]))
+    k = base + 40
+    for x in xs:
+        for _ in range(sh):
+            out.append((left[k], x[0], x[1]))
+            k += 1
+    return out
+
+
+def big_table(spec):
+    """-> dict(fails=[(sig, msg)], classes=[...], subchecks=int, nontrivial=bool)"""
+    from renormalizer import Model, Mpo, Op
+    from renormalizer.model.basis import BasisMultiElectron
+
+    n0, n1 = BIG_N0, BIG_N1
+    algo = spec["algo"]
+    strings = big_strings(spec)
+    rng = np.random.default_rng(20 + spec["extra"] * 7 + spec["share"])
+    factors = rng.uniform(0.5, 1.5, size=len(strings))
+    if spec["layout"] == "right":
+        dims = [n0, n1, n1]
+        strs = strings
+    else:
+        dims = [n1, n1, n0]
+        strs = [(c, b, a) for a, b, c in strings]
+    dofs = [[(s, i) for i in range(n)] for s, n in enumerate(dims)]
+    model = Model([BasisMultiElectron(d, [0] * len(d)) for d in dofs], [])
+
+    def unit(s, ij):
+        return Op(r"a^\dagger a", [dofs[s][ij[0]], dofs[s][ij[1]]])
+
+    terms = [unit(0, p) * unit(1, q) * unit(2, r) * float(f) for (p, q, r), f in zip(strs, factors)]
+    # reference: minimum cover per cut with the harness' matching (smaller side as U)
+    expected, sides = [1], []
+    for cut in (1, 2):
+        ids_l, ids_r, edges = {}, {}, []
+        for t in strs:
+            l = ids_l.setdefault(t[:cut], len(ids_l))
+            r = ids_r.setdefault(t[cut:], len(ids_r))
+            edges.append((l, r))
+        if len(ids_l) > len(ids_r):
+            edges = [(r, l) for l, r in edges]
+            nU, nV = len(ids_r), len(ids_l)
+        else:
+            nU, nV = len(ids_l), len(ids_r)
+        adj = [[] for _ in range(nU)]
+        for u, v in edges:
+            adj[u].append(v)
+        expected.append(max_matching(adj, nV))
+        sides.append(max(nU, nV))
+    expected.append(1)
+    out = dict(fails=[], classes=[f"bigtable.layout.{spec['layout']}", f"bigtable.algo.{algo}",
+                                  f"bigtable.terms={len(strs)}", f"bigtable.max_distinct_partial_terms={max(sides)}"],
+               subchecks=0, nontrivial=max(sides) > 65536)
+    if 40 + 2 * spec["extra"] not in expected:
+        raise AssertionError(f"harness layout: expected covers {expected}")
+    try:
+        mpo = Mpo(model, terms, algo=algo)
+        bonds = [int(b) for b in mpo.bond_dims]
+        dense = np.asarray(mpo.todense())
+    except Exception as e:  # noqa
+        sig, in_lib = lib_exception_sig(e)
+        if not in_lib:
+            raise
+        out["fails"].append((f"bigtable.{algo}.{sig}", f"{spec}: {e!r}"))
+        return out
+    out["subchecks"] += 2
+    if bonds != expected:
+        out["fails"].append((f"bigtable.{algo}.bond_not_minimum_cover",
+                             f"{spec}: bond_dims {bonds} != minimum vertex cover per cut {expected} "
+                             f"({len(strs)} terms, up to {max(sides)} distinct partial terms at a cut)"))
+    idx = np.array([[p[0], q[0], r[0], p[1], q[1], r[1]] for p, q, r in strs])
+    ref = np.zeros(tuple(dims) * 2)
+    np.add.at(ref, tuple(idx.T), factors)
+    dim = int(np.prod(dims))
+    ref = ref.reshape(dim, dim)
+    if dense.shape != ref.shape:
+        out["fails"].append((f"bigtable.{algo}.dense_shape", f"{spec}: todense() shape {dense.shape} != {ref.shape}"))
+        return out
+    err = float(np.abs(dense - ref).max())
+    if not err <= 1e-10:
+        nmiss = int(np.sum((np.abs(dense) < 1e-12) & (np.abs(ref) > 1e-12)))
+        out["fails"].append((f"bigtable.{algo}.operator_wrong",
+                             f"{spec}: dense operator differs from the term-by-term reference, max abs error {err:.3g}, "
+                             f"{nmiss} of {len(strs)} terms missing (bond_dims {bonds}, minimum covers {expected})"))
+    return out
+
+
+def _big_worker(spec):
+    import warnings
+
+    warnings.filterwarnings("ignore")
+    os.environ.setdefault("OMP_NUM_THREADS", "1")
+    try:
+        return big_table(spec)
+    except Exception as e:  # harness error: surfaces through run_case (recomputed there)
+        return {"harness_error": repr(e)}
 
 
 # ------------------------------------------------------------------------------------------------
@@ -492,7 +635,8 @@ class C20(Prop):
             "same non-trivial rule) and term tables (few-body pool / all-pairs / sum-of-products / C01 generators, spin-heavy; "
             "quick 2-6 sites <=20 terms, thorough 2-8 sites <=40 terms; both graph algorithms on every table, <=2 adjacent swaps "
             "to feed the spy; non-trivial when at some cut the minimum cover is smaller than min(#distinct prefixes, #distinct suffixes), "
-            "i.e. complementary operators are needed)")
+            "i.e. complementary operators are needed).  Large tables: 1 (quick) / 4 (thorough) three-site operators of ~65 550 "
+            "terms with more than 65 536 distinct partial terms at a cut (non-trivial by that rule)")
     assumptions = ["precondition (DESIGN §3.10): graphs have >=1 edge; neighbour lists contain no repeated vertex",
                    "tables returned by the SciPy path may be shorter than |U|,|V| for trailing isolated vertices: padded with False",
                    "minimum cover of the enumerated graphs computed by definition (min over subsets of U); for larger graphs Koenig "
@@ -547,12 +691,17 @@ class C20(Prop):
         specs = enum_specs(tier)
         work = sorted(specs, key=lambda s: -(s["hi"] - s["lo"]) * (15 if s["algo"] == "Hopcroft-Karp" else 2))
         nproc = max(1, min(16, os.cpu_count() or 1))
+        bigs = big_specs(tier)
         if nproc > 1:
             with mp.get_context("fork").Pool(nproc) as pool:
+                big_async = pool.map_async(_big_worker, bigs, chunksize=1)  # the long ones first
                 outs = pool.map(_enum_worker, work, chunksize=1)
+                big_outs = big_async.get()
         else:
             outs = [_enum_worker(s) for s in work]
+            big_outs = [_big_worker(s) for s in bigs]
         self._cache = {canon(s): o for s, o in zip(work, outs)}
+        self._cache.update({canon(s): o for s, o in zip(bigs, big_outs) if "harness_error" not in o})
         tot = {}
         for s, o in zip(work, outs):
             k = (s["nU"], s["nV"], s["algo"])
@@ -561,7 +710,7 @@ class C20(Prop):
             t[1] += o["calls"]
             t[2] += o["nontrivial"]
         self._totals = tot
-        return fixed + specs + [{"kind": "enum_summary", "tier": tier}]
+        return fixed + bigs + specs + [{"kind": "enum_summary", "tier": tier}]
 
     # -------------------------------------------------------------------------------------------
     def run_case(self, spec):
@@ -574,7 +723,21 @@ class C20(Prop):
             return self.run_graph(spec)
         if kind == "table":
             return self.run_table(spec)
+        if kind == "bigtable":
+            return self.run_bigtable(spec)
         raise ValueError(kind)
+
+    def run_bigtable(self, spec):
+        out = self._cache.get(canon(spec))
+        if out is None:  # replay, or the pool worker met a harness error: recompute here so that it surfaces
+            out = big_table(spec)
+        r = Result()
+        r.nontrivial = out["nontrivial"]
+        r.classes += out["classes"]
+        r.subchecks += out["subchecks"]
+        for sig, msg in out["fails"]:
+            r.fail(sig, msg)
+        return r
 
     def run_enum(self, spec):
         out = self._cache.get(canon(spec))
